@@ -17,7 +17,7 @@ from statham.schema.elements import (
 from statham.schema.elements.meta import ObjectMeta
 from statham.schema.helpers import remove_duplicates
 from statham.schema.property import _Property
-from statham.serializers.orderer import get_object_classes
+from statham.serializers.orderer import get_children, get_object_classes
 
 
 def serialize_json(
@@ -37,6 +37,10 @@ def serialize_json(
     """
     primary = elements[0]
     object_classes = get_object_classes(*elements)
+    # The top level element is only a definition if something refers to it.
+    referenced = [
+        child for element in elements for child in get_children(element)
+    ]
     serialize = partial(
         _serialize_element, object_refs=True, definitions=definitions
     )
@@ -46,6 +50,7 @@ def serialize_json(
             object_class.__name__: serialize(object_class)
             for object_class in object_classes
             if object_class is not primary
+            or any(child is primary for child in referenced)
         },
     }
     if definitions:
